@@ -37,10 +37,16 @@ def strategy_(draw, tier):
     n = draw(st.integers(n_min, max(n_min + 64, int(min(3000, 40 * p_lo)))))
     sig = draw(gen.st_signal(band, n, tie_rich=draw(st.booleans())))
     bnd = draw(st.sampled_from([0, 0, 1, 2, 5, int(round(p_lo)), n // 5, n // 3]))
-    return {'fs': fs, 'f_range': [f_lo, f_hi], 'sig': sig, 'fk': fk, 'boundary': bnd,
+    case = {'fs': fs, 'f_range': [f_lo, f_hi], 'sig': sig, 'fk': fk, 'boundary': bnd,
             'first': draw(st.sampled_from(['peak', 'trough', None])), 'pad': draw(st.sampled_from([True, True, False])),
             'dtype': draw(st.sampled_from(['float64'] * 5 + ['float32', 'int64', 'int16-rails', 'uint16', 'int64-rails'])),
             'np_scalars': draw(st.integers(0, 3)) == 0}
+    if draw(st.integers(0, 7)) == 0:
+        # half-waves that touch the edge of the recording: a rhythm riding on a baseline, a kernel so short that its response has
+        # no further zero-crossing inside the padding, nothing dropped at the boundary
+        case.update(fk={'n_cycles': draw(st.sampled_from([0.5, 1, 1.1, 1.25, 1.4]))}, pad=True, boundary=0, dtype='float64',
+                    baseline=draw(st.sampled_from([-1.0, -0.5, 0.5, 1.0, -2.0])))
+    return case
 
 
 def cast(x, kind):
@@ -49,9 +55,10 @@ def cast(x, kind):
     x = np.asarray(x, dtype=float)
     if kind == 'float32':
         return x.astype(np.float32)
+    span = max(float(np.max(np.abs(x))), 1e-300)
     if kind == 'int64':
-        return np.round(x * 8).astype(np.int64)
-    span = max(float(np.max(np.abs(x))), 1e-12)
+        # counts of ordinary size whatever unit the recipe was rendered in (x * 8 overflowed int64 for the 1e12 gains)
+        return np.round(x * 8).astype(np.int64) if span < 1e6 else np.round(x / span * 4096).astype(np.int64)
     if kind == 'int16-rails':          # ADC counts that saturate at both rails (-32768 and 32767)
         return np.clip(np.round(x / span * 40000), -32768, 32767).astype(np.int16)
     if kind == 'int64-rails':          # 64-bit counts clipping at +-2**61 with the last bit toggling: neighbours that float64 cannot tell apart
@@ -64,6 +71,8 @@ def cast(x, kind):
 
 def check(case, rec):
     x = cast(gen.render_signal(case['sig']), case.get('dtype', 'float64'))
+    if case.get('baseline'):
+        x = x + case['baseline'] * float(np.max(np.abs(x)) or 1.0)
     n = len(x)
     fs, fr, fk, bnd, first, pad = case['fs'], tuple(case['f_range']), case['fk'], case['boundary'], case['first'], case['pad']
     # reference first: decides the domain
@@ -85,7 +94,7 @@ def check(case, rec):
         kwargs['pad'] = np.bool_(pad)
         fs = np.float64(fs)
         if fk and 'n_cycles' in fk:
-            kwargs['filter_kwargs'] = {'n_cycles': np.int64(fk['n_cycles'])}
+            kwargs['filter_kwargs'] = dict(fk, n_cycles=(np.int64(fk['n_cycles']) if float(fk['n_cycles']).is_integer() else np.float64(fk['n_cycles'])))
     peaks, troughs = guarded(find_extrema, xin, fs, fr, **kwargs)
     peaks = np.asarray(peaks)
     troughs = np.asarray(troughs)
